@@ -27,11 +27,22 @@ TASK_TYPES = {
 }
 ENUM_TYPES = {
     ('ptasks', 'Color'): ['RED', 'BLUE'], ('ptasks', 'Shade'): ['DARK', 'LIGHT'], ('ptasks2', 'Color'): ['RED', 'BLUE'],
+    # int- / str-mixin enums (IntEnum, (int, Enum), StrEnum, (str, Enum)): members are ints / strs too
+    ('ptasks', 'Verbosity'): ['QUIET', 'LOUD'], ('ptasks', 'Retries'): ['NONE', 'ONCE'], ('ptasks2', 'Verbosity'): ['QUIET', 'LOUD'],
+    ('ptasks', 'Dataset'): ['TRAIN', 'TEST'], ('ptasks', 'Split'): ['TRAIN', 'TEST'], ('ptasks2', 'Dataset'): ['TRAIN', 'TEST'],
 }
+# the bare value a mixin enum member is an instance of (and Python-equal to), as a spec
+MIXIN_VALUE = {}
+for _cls in [('ptasks', 'Verbosity'), ('ptasks', 'Retries'), ('ptasks2', 'Verbosity')]:
+    MIXIN_VALUE[_cls + ('QUIET' if _cls[1] == 'Verbosity' else 'NONE',)] = ['int', 0]
+    MIXIN_VALUE[_cls + ('LOUD' if _cls[1] == 'Verbosity' else 'ONCE',)] = ['int', 1]
+for _cls in [('ptasks', 'Dataset'), ('ptasks', 'Split'), ('ptasks2', 'Dataset')]:
+    MIXIN_VALUE[_cls + ('TRAIN',)] = ['str', 'train']
+    MIXIN_VALUE[_cls + ('TEST',)] = ['str', 'test']
 EDGE_INTS = [0, -1, 1, 2, 2 ** 63, -2 ** 63 - 1, 10 ** 30, 255]
 EDGE_FLOATS = ['0.0', '-0.0', '1.0', '1e-320', 'Infinity', '-Infinity', '0.1', '1e+22', '-2.5', '1.7976931348623157e+308', '5e-324']
 EDGE_STRS = ['', 'a', '1', 'True', 'null', ' ', 'é', 'naïve ☃', '😀', '\u007f', '\x00\x1f', 'line\nbreak\ttab', '"q"', 'back\\slash',
-             '{"_is_task": true}', '[1, 2]', '1.0', 'ptasks.Leaf', ' ', 'x' * 40, '\U0001F600\U00010000', '/', '..']
+             '{"_is_task": true}', '[1, 2]', '1.0', 'ptasks.Leaf', 'train', 'test', ' ', 'x' * 40, '\U0001F600\U00010000', '/', '..']
 RESERVED_KEYS = ['_is_task', '_is_enum', '__class__', 'name', 'x', 'p', 'a', 'b', '', 'é', 'k"q', 'cache_key', '_lt']
 BAD_KINDS = ['set', 'frozenset', 'bytes', 'object', 'complex', 'range', 'bytearray', 'class', 'func']
 KEY_KINDS = ['int', 'none', 'tuple', 'float', 'bytes', 'bool', 'enum']
@@ -55,7 +66,7 @@ class Gen:
 
     def scalar(self):
         r = self.r
-        k = r.randrange(10)
+        k = r.randrange(12)
         if k == 0:
             return ['none']
         if k == 1:
